@@ -92,4 +92,20 @@ def collection(draw, min_msgs=0, max_msgs=8, faults='some', rich=False, with_del
                 d = ET.tostring(r, encoding='unicode')
             out.append(d)
         docs = out
+    # header elements differ from document to document (a main and a backup NCS, or none named):
+    # nothing but the numeric messageID decides the order
+    out = []
+    for d in docs:
+        how = draw(st.sampled_from(['', '', 'NCS.MAIN', 'NCS.BACKUP', 'a', 'absent']))
+        if how:
+            r = ET.fromstring(d)
+            for old_ in r.findall('ncsID'):
+                r.remove(old_)
+            if how != 'absent':
+                e = ET.Element('ncsID')
+                e.text = how
+                r.insert(draw(st.integers(0, 1)), e)
+            d = ET.tostring(r, encoding='unicode')
+        out.append(d)
+    docs = out
     return {'docs': docs, 'ro_id': ro['ro_id'], 'has_delete': delete_at is not None}
